@@ -309,6 +309,9 @@ func (p *printer) expr(n *Node) {
 		case "call":
 			p.pn("(")
 			p.list(n.A[1:])
+			if n.Op == "..." {
+				p.pn("...") // the last argument is spread
+			}
 			p.pn(")")
 		case "idx":
 			p.pn("[")
@@ -437,6 +440,8 @@ func head(n *Node) string {
 		return "un[" + n.Op + "]"
 	case "mem":
 		return "mem[" + n.S + "]"
+	case "call":
+		return "call" + n.Op
 	case "fn":
 		return "fn[" + n.S + "]"
 	case "none":
@@ -510,6 +515,14 @@ func convList(es []ast.Expr) []*Node {
 	return out
 }
 
+// spreadOp is the Op of a call node: "..." when the last argument is spread.
+func spreadOp(varArg bool) string {
+	if varArg {
+		return "..."
+	}
+	return ""
+}
+
 func unknown(v interface{}) *Node { return &Node{K: "?" + fmt.Sprintf("%T", v)} }
 
 // conv converts an anko expression into a Node (ParenExpr kept as paren; canon drops it).
@@ -570,15 +583,15 @@ func conv(e ast.Expr) *Node {
 	case *ast.NilCoalescingOpExpr:
 		return &Node{K: "nilc", A: []*Node{conv(x.LHS), conv(x.RHS)}}
 	case *ast.CallExpr:
-		if x.VarArg || x.Go || x.Func.IsValid() {
+		if x.Go || x.Func.IsValid() {
 			return &Node{K: "?call-flags"}
 		}
-		return &Node{K: "call", A: append([]*Node{{K: "id", S: x.Name}}, convList(x.SubExprs)...)}
+		return &Node{K: "call", Op: spreadOp(x.VarArg), A: append([]*Node{{K: "id", S: x.Name}}, convList(x.SubExprs)...)}
 	case *ast.AnonCallExpr:
-		if x.VarArg || x.Go {
+		if x.Go {
 			return &Node{K: "?call-flags"}
 		}
-		return &Node{K: "call", A: append([]*Node{conv(x.Expr)}, convList(x.SubExprs)...)}
+		return &Node{K: "call", Op: spreadOp(x.VarArg), A: append([]*Node{conv(x.Expr)}, convList(x.SubExprs)...)}
 	case *ast.MemberExpr:
 		return &Node{K: "mem", S: x.Name, A: []*Node{conv(x.Expr)}}
 	case *ast.ItemExpr:
